@@ -38,7 +38,9 @@ func PluginRef(r *rand.Rand) string {
 			}
 		}
 	}
-	pool := []string{"v1.2.3", "main", "master", "v4", "feature/x", "1.0", "release-2", "a_b", "0", "v1.0.0-beta.1"}
+	pool := []string{"v1.2.3", "main", "master", "v4", "feature/x", "1.0", "release-2", "a_b", "0", "v1.0.0-beta.1",
+		// refs that are filled in later (matrix tokens, env references) or are not plain ASCII words
+		"{{matrix.version}}", "{{matrix}}", "{{ matrix.v }}", "${VER}", "$VER", "v{{matrix.major}}.x", "é", "v1 x", "release/{{matrix}}"}
 	if r.IntN(2) == 0 {
 		return pool[r.IntN(len(pool))]
 	}
@@ -96,7 +98,18 @@ func PluginSource(r *rand.Rand) (src, want, form string) {
 		sep := []string{"\\", "/"}[r.IntN(2)]
 		s, _ := withRef(drive + ":" + sep + PluginName(r) + sep + PluginName(r))
 		return s, s, "windows-drive"
-	case 8, 9:
+	case 8:
+		if r.IntN(3) == 0 {
+			// three or more segments by way of an empty or dot segment: trailing slash, doubled slash, "/./"
+			p := PluginName(r) + []string{"/", "//", "/./"}[r.IntN(3)] + PluginName(r)
+			if strings.Count(p, "/") < 2 || r.IntN(2) == 0 {
+				p += "/"
+			}
+			s, _ := withRef(p)
+			return s, s, "three-or-more-segments"
+		}
+		fallthrough
+	case 9:
 		host := []string{"github.com", "gitlab.com", "bitbucket.org", "example.com", PluginName(r)}[r.IntN(5)]
 		p := host
 		for k := 2 + r.IntN(3); k > 0; k-- {
